@@ -30,7 +30,9 @@ import (
 	"testing"
 
 	"github.com/bufbuild/buf/private/bufpkg/bufmodule"
+	imagev1 "github.com/bufbuild/buf/private/gen/proto/go/buf/alpha/image/v1"
 	"github.com/bufbuild/buf/private/pkg/normalpath"
+	"github.com/bufbuild/buf/private/pkg/protoencoding"
 	"github.com/bufbuild/buf/private/pkg/storage/storagemem"
 	"github.com/google/uuid"
 	"google.golang.org/protobuf/encoding/protowire"
@@ -831,6 +833,186 @@ func (r *c11Run) familyNormalpath() {
 	}
 }
 
+// ---- every encoding, written and read back (the way bufctl writes and reads an image file)
+
+const c11OptionsProto = `syntax = "proto3";
+package n;
+import "google/protobuf/descriptor.proto";
+import public "n/pub.proto";
+message First {
+  string f = 1;
+  message Inner {
+    extend google.protobuf.MessageOptions {
+      string deep = 50012;
+    }
+  }
+}
+message Scope {
+  extend google.protobuf.FieldOptions {
+    string label = 50010;
+  }
+  string s = 1 [(n.Scope.label) = "scoped"];
+}
+extend google.protobuf.MessageOptions {
+  string top = 50011;
+}
+message Use {
+  option (n.top) = "toplevel";
+  option (n.First.Inner.deep) = "deep";
+  string u = 1 [(n.Scope.label) = "used"];
+  n.Pub p = 2;
+}
+`
+
+var c11YAMLNoted bool
+
+func c11Canonical(image Image) (string, error) {
+	protoImage, err := ImageToProtoImage(image)
+	if err != nil {
+		return "", err
+	}
+	data, err := protoencoding.NewJSONMarshaler(image.Resolver()).Marshal(protoImage)
+	return string(data), err
+}
+
+func (r *c11Run) familyEncodings(ctx context.Context) {
+	w := c11Workspace{name: "options", modules: []map[string]string{{
+		"n/n.proto":    c11OptionsProto,
+		"n/pub.proto":  c11Proto("n", "Pub", nil, []string{"string"}),
+		"n/user.proto": "package n;\nimport \"n/n.proto\";\nimport \"n/pub.proto\";\nmessage User {\n  optional Use use = 1;\n}\n",
+	}}}
+	for _, paths := range [][]string{nil, {"n/user.proto"}} {
+		image, err := w.build(ctx, paths, nil)
+		if err != nil {
+			fmt.Printf("VERIF-REPLAY generator problem: %v\n", err)
+			return
+		}
+		want, err := c11Canonical(image)
+		if err != nil {
+			fmt.Printf("VERIF-REPLAY generator problem: %v\n", err)
+			return
+		}
+		for _, probe := range []string{`"[n.top]":"toplevel"`, `"[n.Scope.label]":"scoped"`, `"[n.Scope.label]":"used"`, `"[n.First.Inner.deep]":"deep"`} {
+			if !strings.Contains(strings.ReplaceAll(want, " ", ""), probe) {
+				r.fail("encodings", "image built from {n/n.proto: top-level extend n.top, nested extend n.Scope.label, doubly nested extend n.First.Inner.deep, all used}: rendered as JSON with the image's own resolver the option value %s is missing", probe)
+			}
+		}
+		protoImage, err := ImageToProtoImage(image)
+		if err != nil {
+			r.fail("encodings", "ImageToProtoImage: %v", err)
+			return
+		}
+		// the written files carry the fields of the built descriptors
+		for k, protoFile := range protoImage.GetFile() {
+			if k >= len(image.Files()) {
+				break
+			}
+			fd := image.Files()[k].FileDescriptorProto()
+			r.checked++
+			written := fmt.Sprintf("name=%s package=%s syntax=%s dependency=%v public_dependency=%v weak_dependency=%v messages=%d enums=%d services=%d extensions=%d source-locations=%d",
+				protoFile.GetName(), protoFile.GetPackage(), protoFile.GetSyntax(), protoFile.GetDependency(), protoFile.GetPublicDependency(), protoFile.GetWeakDependency(),
+				len(protoFile.GetMessageType()), len(protoFile.GetEnumType()), len(protoFile.GetService()), len(protoFile.GetExtension()), len(protoFile.GetSourceCodeInfo().GetLocation()))
+			built := fmt.Sprintf("name=%s package=%s syntax=%s dependency=%v public_dependency=%v weak_dependency=%v messages=%d enums=%d services=%d extensions=%d source-locations=%d",
+				fd.GetName(), fd.GetPackage(), fd.GetSyntax(), fd.GetDependency(), fd.GetPublicDependency(), fd.GetWeakDependency(),
+				len(fd.GetMessageType()), len(fd.GetEnumType()), len(fd.GetService()), len(fd.GetExtension()), len(fd.GetSourceCodeInfo().GetLocation()))
+			if written != built {
+				r.fail("encodings", "image built from the sources {n/n.proto (import public n/pub.proto; custom options), n/pub.proto, n/user.proto} targets %v: the written image file (ImageToProtoImage) has {%s}, the built descriptor {%s}", paths, written, built)
+			}
+		}
+		type encoding struct {
+			name      string
+			marshal   protoencoding.Marshaler
+			unmarshal func(resolver protoencoding.Resolver) protoencoding.Unmarshaler
+		}
+		encodings := []encoding{
+			{"binpb", protoencoding.NewWireMarshaler(), nil},
+			{"json", protoencoding.NewJSONMarshaler(image.Resolver()), func(res protoencoding.Resolver) protoencoding.Unmarshaler {
+				return protoencoding.NewJSONUnmarshaler(res)
+			}},
+			{"txtpb", protoencoding.NewTxtpbMarshaler(image.Resolver()), func(res protoencoding.Resolver) protoencoding.Unmarshaler {
+				return protoencoding.NewTxtpbUnmarshaler(res)
+			}},
+			{"yaml", protoencoding.NewYAMLMarshaler(image.Resolver(), protoencoding.YAMLMarshalerWithIndent()), func(res protoencoding.Resolver) protoencoding.Unmarshaler {
+				return protoencoding.NewYAMLUnmarshaler(res)
+			}},
+		}
+		for _, enc := range encodings {
+			r.checked++
+			what := fmt.Sprintf("image built from the sources {n/n.proto (custom options declared by a top-level extend, an extend nested in message Scope and one nested in First.Inner, all used; import public n/pub.proto), n/pub.proto, n/user.proto (no syntax line)} targets %v, written as %s and read back", paths, enc.name)
+			data, err := enc.marshal.Marshal(protoImage)
+			if err != nil {
+				r.fail("encodings", "%s: marshal error %v", what, err)
+				continue
+			}
+			back := &imagev1.Image{}
+			if enc.unmarshal == nil {
+				err = protoencoding.NewWireUnmarshaler(nil).Unmarshal(data, back)
+			} else {
+				// two passes: first without a resolver, to obtain one from the image itself
+				first := &imagev1.Image{}
+				if err = enc.unmarshal(nil).Unmarshal(data, first); err == nil {
+					var resolver protoencoding.Resolver
+					if resolver, err = protoencoding.NewResolver(first.GetFile()...); err == nil {
+						err = enc.unmarshal(resolver).Unmarshal(data, back)
+					}
+				}
+			}
+			if err != nil && enc.name == "yaml" && strings.Contains(err.Error(), "unknown field \"[") {
+				// Pre-existing defect of the pinned tree (reported separately): the resolver-less first pass
+				// of the YAML reader rejects extension keys, so a YAML image that uses a custom option does
+				// not read back at all. Not attributed to the obligation under replay; the text is checked instead.
+				if !c11YAMLNoted {
+					c11YAMLNoted = true
+					fmt.Printf("VERIF-REPLAY known-defect yaml image with custom options does not read back (%v)\n", strings.SplitN(err.Error(), "\n", 2)[0])
+				}
+				text := strings.ReplaceAll(strings.ReplaceAll(string(data), "'", ""), "\"", "")
+				for _, probe := range []string{"[n.top]: toplevel", "[n.Scope.label]: scoped", "[n.Scope.label]: used", "[n.First.Inner.deep]: deep"} {
+					if !strings.Contains(text, probe) {
+						r.fail("encodings", "%s: the YAML text lacks the option value `%s`", strings.TrimSuffix(what, " and read back"), probe)
+					}
+				}
+				continue
+			}
+			if err != nil {
+				r.fail("encodings", "%s: read error %v", what, err)
+				continue
+			}
+			readImage, err := NewImageForProto(back)
+			if err != nil {
+				r.fail("encodings", "%s: NewImageForProto: %v", what, err)
+				continue
+			}
+			got, err := c11Canonical(readImage)
+			if err != nil {
+				r.fail("encodings", "%s: %v", what, err)
+				continue
+			}
+			if got != want {
+				detail := ""
+				for _, probe := range []string{`"[n.top]":"toplevel"`, `"[n.Scope.label]":"scoped"`, `"[n.Scope.label]":"used"`, `"[n.First.Inner.deep]":"deep"`, `"publicDependency"`, `"isSyntaxUnspecified":true`} {
+					a, b := strings.Count(strings.ReplaceAll(want, " ", ""), probe), strings.Count(strings.ReplaceAll(got, " ", ""), probe)
+					if a != b {
+						detail += fmt.Sprintf(" %s occurs %d times in the original, %d times after the round trip;", probe, a, b)
+					}
+				}
+				r.fail("encodings", "%s differs from the original:%s (JSON renderings have %d and %d bytes)", what, detail, len(want), len(got))
+				continue
+			}
+			// and file by file
+			if len(readImage.Files()) != len(image.Files()) {
+				r.fail("encodings", "%s has %v, the original %v", what, c11Files(readImage), c11Files(image))
+				continue
+			}
+			for k, f := range image.Files() {
+				g := readImage.Files()[k]
+				if f.Path() != g.Path() || f.IsImport() != g.IsImport() || f.IsSyntaxUnspecified() != g.IsSyntaxUnspecified() || fmt.Sprint(f.UnusedDependencyIndexes()) != fmt.Sprint(g.UnusedDependencyIndexes()) {
+					r.fail("encodings", "%s: file #%d is %s import=%v no-syntax=%v unused=%v, originally %s import=%v no-syntax=%v unused=%v", what, k, g.Path(), g.IsImport(), g.IsSyntaxUnspecified(), g.UnusedDependencyIndexes(), f.Path(), f.IsImport(), f.IsSyntaxUnspecified(), f.UnusedDependencyIndexes())
+				}
+			}
+		}
+	}
+}
+
 func TestVerifReplayC11(t *testing.T) {
 	fn := os.Getenv("VERIF_REPLAY_FUNC")
 	obligation := os.Getenv("VERIF_REPLAY_OBLIGATION")
@@ -850,6 +1032,10 @@ func TestVerifReplayC11(t *testing.T) {
 		r.familySelections(ctx, false)
 	case "stripBufExtensionField", "fileDescriptorProtoToProtoImageFile", "imageFileToProtoImageFile":
 		r.familyStrip()
+		r.familyEncodings(ctx)
+	case "findExtension", "FindExtensionByNumber", "FindExtensionByName", "FindDescriptorByName", "FindFileByPath", "FindMessageByName", "FindEnumByName", "newResolverForFiles", "Resolver",
+		"NewImageForProto", "ImageToProtoImage", "reparseImageProto", "imageToProtoImage":
+		r.familyEncodings(ctx)
 	case "MapAllEqualOrContainingPathMap", "MapHasEqualOrContainingPath", "EqualsOrContainsPath":
 		r.familyNormalpath()
 		r.familySelections(ctx, false)
